@@ -3,6 +3,14 @@ import Mathlib.Topology.Algebra.Order.Field
 import CopVerif.Real.Inst
 import CopVerif.Model.RootFind
 
+/-!
+  Facts over ℝ about the hand-written root-finder models `CopVerif.Model.bisect` and
+  `CopVerif.Model.chandrupatla` (property C18).  Method: for an element-wise function
+  `evalLanes fs` one loop body on the batch is `mapIdx` of a per-lane body (`bisectLane`,
+  `chLaneStep`); the loops return an iterate of the body whose index is shared by all lanes;
+  per-lane invariants (`BisInv`, `ChInv`/`ChMidInv`) plus the intermediate value theorem give the
+  bracket/root statements.
+-/
 namespace CopVerif.RootFind
 open CopVerif CopVerif.Model
 
@@ -135,5 +143,845 @@ theorem BisInv.root {f : ℝ → ℝ} {lo₀ hi₀ : ℝ} {k : ℕ} {p : ℝ × 
   obtain ⟨r, ⟨hr1, hr2⟩, hr⟩ := intermediate_value_Icc h.le hc' ⟨h.flo, h.fhi⟩
   refine ⟨r, hr1, hr2, hr, ?_⟩
   rw [mid_real, abs_le]; constructor <;> linarith
+
+/-! ## bisect: the loop and the whole function -/
+
+theorem bisectLoop_spec (f : List ℝ → List ℝ) (tol : ℝ) :
+    ∀ (fuel k : ℕ) (s : List (ℝ × ℝ)) (r : ℕ × List (ℝ × ℝ)),
+      bisectLoop f tol fuel k s = .ok r →
+      ∃ j, j ≤ fuel ∧ r = (k + j, (bisectStep f)^[j] s) ∧
+        (j = fuel ∨ ∃ w, arrMax (widths r.2) = some w ∧ w < tol) := by
+  intro fuel
+  induction fuel with
+  | zero =>
+    intro k s r h
+    simp only [bisectLoop, Except.ok.injEq] at h
+    exact ⟨0, le_refl _, by simp [← h], Or.inl rfl⟩
+  | succ n ih =>
+    intro k s r h
+    unfold bisectLoop at h
+    simp only at h
+    split at h
+    · cases h
+    · rename_i w hw
+      split at h
+      · rename_i hlt
+        simp only [Except.ok.injEq] at h
+        subst h
+        exact ⟨1, by omega, by simp, Or.inr ⟨w, hw, hlt⟩⟩
+      · obtain ⟨j, hj, hr, hex⟩ := ih _ _ _ h
+        refine ⟨j + 1, by omega, ?_, ?_⟩
+        · rw [hr, Function.iterate_succ_apply]; congr 1; omega
+        · rcases hex with hex | hex
+          · exact Or.inl (by omega)
+          · exact Or.inr hex
+
+theorem bisectLoop_ok (f : List ℝ → List ℝ) (hlen : ∀ s, (bisectStep f s).length = s.length) (tol : ℝ) :
+    ∀ (fuel k : ℕ) (s : List (ℝ × ℝ)), s ≠ [] → ∃ r, bisectLoop f tol fuel k s = .ok r := by
+  intro fuel
+  induction fuel with
+  | zero => intro k s _; exact ⟨_, rfl⟩
+  | succ n ih =>
+    intro k s hs
+    have hs' : bisectStep f s ≠ [] := by
+      intro h; apply hs; apply List.eq_nil_of_length_eq_zero; rw [← hlen s, h]; rfl
+    have hw : widths (bisectStep f s) ≠ [] := by
+      simpa [widths] using hs'
+    obtain ⟨w, hw⟩ := arrMax_isSome hw
+    unfold bisectLoop
+    simp only [hw]
+    split
+    · exact ⟨_, rfl⟩
+    · exact ih _ _ hs'
+
+/-- element-wise brackets `f(xmin) ≤ 0 ≤ f(xmax)`, `xmin ≤ xmax`, one per lane. -/
+structure ValidBrackets (fs : ℕ → ℝ → ℝ) (xmin xmax : List ℝ) : Prop where
+  len : xmin.length = xmax.length
+  lane : ∀ i lo hi, xmin[i]? = some lo → xmax[i]? = some hi → lo ≤ hi ∧ fs i lo ≤ 0 ∧ 0 ≤ fs i hi
+
+theorem all_evalLanes (fs : ℕ → ℝ → ℝ) (xs : List ℝ) (p : ℝ → Bool) :
+    (evalLanes fs xs).all p = true ↔ ∀ i x, xs[i]? = some x → p (fs i x) = true := by
+  simp only [evalLanes, List.all_eq_true, List.mem_iff_getElem?, List.getElem?_mapIdx]
+  constructor
+  · intro h i x hx
+    exact h _ ⟨i, by simp [hx]⟩
+  · rintro h y ⟨i, hi⟩
+    cases hx : xs[i]? with
+    | none => simp [hx] at hi
+    | some x => simp [hx] at hi; subst hi; exact h i x hx
+
+theorem bisect_checks_pass {fs : ℕ → ℝ → ℝ} {xmin xmax : List ℝ} (hv : ValidBrackets fs xmin xmax) :
+    ((evalLanes fs xmin).all fun y => decide (y ≤ NumFns.ofNat 0)) = true ∧
+    ((evalLanes fs xmax).all fun y => decide (NumFns.ofNat 0 ≤ y)) = true := by
+  constructor
+  · rw [all_evalLanes]; intro i x hx
+    have hi : i < xmax.length := by rw [← hv.len]; exact (List.getElem?_eq_some_iff.mp hx).1
+    simpa using (hv.lane i x xmax[i] hx (List.getElem?_eq_getElem hi)).2.1
+  · rw [all_evalLanes]; intro i x hx
+    have hi : i < xmin.length := by rw [hv.len]; exact (List.getElem?_eq_some_iff.mp hx).1
+    simpa using (hv.lane i xmin[i] x (List.getElem?_eq_getElem hi) hx).2.2
+
+/-- What `bisect` returns on valid element-wise brackets: the `K`-th iterate of the loop body for
+    some `K ≤ maxiter`, where either the cap was reached or every lane's width is below `tol`. -/
+theorem bisect_eq_iterate {fs : ℕ → ℝ → ℝ} {xmin xmax : List ℝ} (hv : ValidBrackets fs xmin xmax)
+    (hne : xmin ≠ []) (tol : ℝ) (maxiter : ℕ) :
+    ∃ out K, bisect (evalLanes fs) xmin xmax tol maxiter = .ok out ∧ K ≤ maxiter ∧ out.iters = K ∧
+      out.xmin = ((bisectStep (evalLanes fs))^[K] (xmin.zip xmax)).map Prod.fst ∧
+      out.xmax = ((bisectStep (evalLanes fs))^[K] (xmin.zip xmax)).map Prod.snd ∧
+      out.result = ((bisectStep (evalLanes fs))^[K] (xmin.zip xmax)).map (fun p => mid p.1 p.2) ∧
+      (K = maxiter ∨ ∀ p ∈ (bisectStep (evalLanes fs))^[K] (xmin.zip xmax), p.2 - p.1 < tol) := by
+  obtain ⟨h1, h2⟩ := bisect_checks_pass hv
+  have hz : xmin.zip xmax ≠ [] := by
+    intro h
+    have := congrArg List.length h
+    simp only [List.length_zip, List.length_nil, ← hv.len, min_self] at this
+    exact hne (List.eq_nil_of_length_eq_zero this)
+  obtain ⟨r, hr⟩ := bisectLoop_ok (evalLanes fs)
+    (fun s => by simpa using bisectStep_iterate_length fs 1 s) tol maxiter 0 _ hz
+  obtain ⟨j, hj, hrj, hex⟩ := bisectLoop_spec _ _ _ _ _ _ hr
+  subst hrj
+  refine ⟨{ result := ((bisectStep (evalLanes fs))^[j] (xmin.zip xmax)).map fun p => mid p.1 p.2
+            xmin := ((bisectStep (evalLanes fs))^[j] (xmin.zip xmax)).map (·.1)
+            xmax := ((bisectStep (evalLanes fs))^[j] (xmin.zip xmax)).map (·.2)
+            iters := 0 + j }, j, ?_, hj, by simp, rfl, rfl, rfl, ?_⟩
+  · unfold bisect
+    simp only [h1, h2, hr]
+    rfl
+  · rcases hex with hex | ⟨w, hw, hlt⟩
+    · exact Or.inl hex
+    · right
+      intro p hp
+      have := arrMax_ge hw (p.2 - p.1) (by simp only [widths]; exact List.mem_map_of_mem hp)
+      linarith
+
+
+/-- lane `i` of the batch after `K` iterations is lane `i` iterated alone. -/
+theorem iterate_lane_getElem? (fs : ℕ → ℝ → ℝ) (K : ℕ) {xmin xmax : List ℝ} {i : ℕ} {lo hi : ℝ}
+    (hlo : xmin[i]? = some lo) (hhi : xmax[i]? = some hi) :
+    ((bisectStep (evalLanes fs))^[K] (xmin.zip xmax))[i]? = some ((bisectLane (fs i))^[K] (lo, hi)) := by
+  rw [bisectStep_iterate_getElem?]
+  have : (xmin.zip xmax)[i]? = some (lo, hi) := by
+    rw [List.getElem?_zip_eq_some]; exact ⟨hlo, hhi⟩
+  rw [this]; rfl
+
+/-- Everything the property says about one lane of a successful `bisect` call. -/
+structure BisectLaneOK (f : ℝ → ℝ) (lo hi tol : ℝ) (maxiter K : ℕ) (lo' hi' x : ℝ) : Prop where
+  iterate : (lo', hi') = (bisectLane f)^[K] (lo, hi)
+  inv : BisInv f lo hi K (lo', hi')
+  mid : x = (lo' + hi') / 2
+  inside : lo ≤ x ∧ x ≤ hi
+  exit : K < maxiter → hi' - lo' < tol
+
+theorem bisect_lanes_ok {fs : ℕ → ℝ → ℝ} {xmin xmax : List ℝ} (hv : ValidBrackets fs xmin xmax)
+    (hne : xmin ≠ []) (tol : ℝ) (maxiter : ℕ) :
+    ∃ out K, bisect (evalLanes fs) xmin xmax tol maxiter = .ok out ∧ K ≤ maxiter ∧ out.iters = K ∧
+      ∀ i lo hi, xmin[i]? = some lo → xmax[i]? = some hi →
+        ∃ lo' hi' x, out.xmin[i]? = some lo' ∧ out.xmax[i]? = some hi' ∧ out.result[i]? = some x ∧
+          BisectLaneOK (fs i) lo hi tol maxiter K lo' hi' x := by
+  obtain ⟨out, K, hout, hK, hit, hxmin, hxmax, hres, hex⟩ := bisect_eq_iterate hv hne tol maxiter
+  refine ⟨out, K, hout, hK, hit, ?_⟩
+  intro i lo hi hlo hhi
+  have hs := iterate_lane_getElem? fs K hlo hhi
+  obtain ⟨hle, hflo, hfhi⟩ := hv.lane i lo hi hlo hhi
+  have hinv := (BisInv.init hle hflo hfhi).iterate (f := fs i) K
+  set p := (bisectLane (fs i))^[K] (lo, hi) with hp
+  refine ⟨p.1, p.2, mid p.1 p.2, ?_, ?_, ?_, ⟨rfl, hinv, by simp, ?_, ?_⟩⟩
+  · rw [hxmin, List.getElem?_map, hs]; rfl
+  · rw [hxmax, List.getElem?_map, hs]; rfl
+  · rw [hres, List.getElem?_map, hs]; rfl
+  · have := hinv.lo_le; have := hinv.le; have := hinv.le_hi
+    rw [mid_real]; constructor <;> linarith
+  · intro hlt
+    rcases hex with hex | hex
+    · omega
+    · exact hex p (List.mem_of_getElem? hs)
+
+theorem bisect_rejects_lo {fs : ℕ → ℝ → ℝ} {xmin : List ℝ} {i : ℕ} {lo : ℝ} (hlo : xmin[i]? = some lo)
+    (hbad : 0 < fs i lo) (xmax : List ℝ) (tol : ℝ) (maxiter : ℕ) :
+    bisect (evalLanes fs) xmin xmax tol maxiter = .error .assertion := by
+  have h : ((evalLanes fs xmin).all fun y => decide (y ≤ NumFns.ofNat 0)) = false := by
+    rw [Bool.eq_false_iff, Ne, all_evalLanes]
+    intro h
+    have := h i lo hlo
+    simp at this; linarith
+  unfold bisect; simp only [h, Bool.not_false, ↓reduceIte]
+
+theorem bisect_rejects_hi {fs : ℕ → ℝ → ℝ} {xmax : List ℝ} {i : ℕ} {hi : ℝ} (hhi : xmax[i]? = some hi)
+    (hbad : fs i hi < 0) (xmin : List ℝ) (tol : ℝ) (maxiter : ℕ) :
+    bisect (evalLanes fs) xmin xmax tol maxiter = .error .assertion := by
+  have h : ((evalLanes fs xmax).all fun y => decide (NumFns.ofNat 0 ≤ y)) = false := by
+    rw [Bool.eq_false_iff, Ne, all_evalLanes]
+    intro h
+    have := h i hi hhi
+    simp at this; linarith
+  unfold bisect
+  by_cases h1 : ((evalLanes fs xmin).all fun y => decide (y ≤ NumFns.ofNat 0)) = true
+  · simp only [h1, h, Bool.not_true, Bool.not_false, Bool.false_eq_true, ↓reduceIte]
+  · simp only [Bool.eq_false_iff.mpr h1, Bool.not_false, ↓reduceIte]
+
+/-- the body of a one-lane batch is the lane step. -/
+theorem bisectStep_singleton (f : ℝ → ℝ) (k : ℕ) (p : ℝ × ℝ) :
+    (bisectStep (evalLanes fun _ => f))^[k] [p] = [(bisectLane f)^[k] p] := by
+  rw [bisectStep_iterate]; rfl
+
+/-! ## chandrupatla: primitives at ℝ -/
+
+theorem signNP_real (x : ℝ) :
+    signNP x = if x < 0 then -1 else if 0 < x then 1 else 0 := by
+  simp [signNP]
+
+theorem signNP_cases (x : ℝ) :
+    (x < 0 ∧ signNP x = -1) ∨ (x = 0 ∧ signNP x = 0) ∨ (0 < x ∧ signNP x = 1) := by
+  rw [signNP_real]
+  rcases lt_trichotomy x 0 with h | h | h
+  · left; simp [h]
+  · right; left; simp [h]
+  · right; right; simp [h, not_lt.mpr h.le]
+
+/-- two different signs multiply to something `≤ 0`. -/
+theorem signNP_mul_nonpos_of_ne {x y : ℝ} (h : signNP x ≠ signNP y) : signNP x * signNP y ≤ 0 := by
+  rcases signNP_cases x with ⟨_, hx⟩ | ⟨_, hx⟩ | ⟨_, hx⟩ <;>
+  rcases signNP_cases y with ⟨_, hy⟩ | ⟨_, hy⟩ | ⟨_, hy⟩ <;>
+  rw [hx, hy] at h ⊢ <;> first | (exact absurd rfl h) | norm_num
+
+/-- a sign bracket: `0` lies between the two values. -/
+theorem zero_mem_uIcc_of_sign {x y : ℝ} (h : signNP x * signNP y ≤ 0) : (0:ℝ) ∈ Set.uIcc x y := by
+  rw [Set.mem_uIcc]
+  rcases signNP_cases x with ⟨hx', hx⟩ | ⟨hx', hx⟩ | ⟨hx', hx⟩ <;>
+  rcases signNP_cases y with ⟨hy', hy⟩ | ⟨hy', hy⟩ | ⟨hy', hy⟩ <;>
+  rw [hx, hy] at h <;> first | (norm_num at h; done) | (left; constructor <;> linarith) | (right; constructor <;> linarith)
+
+theorem sign_mul_pos_of_same {x y : ℝ} (h : (0 < x ∧ 0 < y) ∨ (x < 0 ∧ y < 0)) :
+    ¬ (signNP x * signNP y ≤ 0) := by
+  rcases h with ⟨hx, hy⟩ | ⟨hx, hy⟩
+  · simp [signNP_real, hx, hy, not_lt.mpr hx.le, not_lt.mpr hy.le]
+  · simp [signNP_real, hx, hy]
+
+/-! ## chandrupatla: lanes -/
+
+/-- lines 98-120 for one lane on its own. -/
+noncomputable def chLaneHalf (f : ℝ → ℝ) (epsM epsA : ℝ) (l : ChPre ℝ) : ChMid ℝ :=
+  chUpd epsM epsA (chXt l) (f (chXt l)) l
+
+/-- one full loop body for one lane on its own. -/
+noncomputable def chLaneStep (f : ℝ → ℝ) (sq : ℝ → ℝ) (epsM epsA : ℝ) (l : ChPre ℝ) : ChPre ℝ :=
+  chNext sq (chLaneHalf f epsM epsA l)
+
+/-- one full loop body on the batch. -/
+noncomputable def chStep (f : List ℝ → List ℝ) (sq : ℝ → ℝ) (epsM epsA : ℝ) (s : List (ChPre ℝ)) :
+    List (ChPre ℝ) := (chHalf f epsM epsA s).map (chNext sq)
+
+theorem chHalf_evalLanes (fs : ℕ → ℝ → ℝ) (epsM epsA : ℝ) (s : List (ChPre ℝ)) :
+    chHalf (evalLanes fs) epsM epsA s = s.mapIdx (fun i l => chLaneHalf (fs i) epsM epsA l) := by
+  apply List.ext_getElem
+  · simp [chHalf, evalLanes]
+  · intro i h1 h2
+    simp [chHalf, evalLanes, chLaneHalf]
+
+theorem chStep_evalLanes (fs : ℕ → ℝ → ℝ) (sq : ℝ → ℝ) (epsM epsA : ℝ) (s : List (ChPre ℝ)) :
+    chStep (evalLanes fs) sq epsM epsA s = s.mapIdx (fun i l => chLaneStep (fs i) sq epsM epsA l) := by
+  unfold chStep; rw [chHalf_evalLanes]
+  apply List.ext_getElem
+  · simp
+  · intro i h1 h2; simp [chLaneStep]
+
+theorem chStep_iterate (fs : ℕ → ℝ → ℝ) (sq : ℝ → ℝ) (epsM epsA : ℝ) (k : ℕ) (s : List (ChPre ℝ)) :
+    (chStep (evalLanes fs) sq epsM epsA)^[k] s
+      = s.mapIdx (fun i l => (chLaneStep (fs i) sq epsM epsA)^[k] l) := by
+  induction k generalizing s with
+  | zero => apply List.ext_getElem <;> simp
+  | succ k ih =>
+    rw [Function.iterate_succ_apply, chStep_evalLanes, ih]
+    apply List.ext_getElem
+    · simp
+    · intro i h1 h2; simp
+
+/-- the state at the `break` test of iteration `j+1`, lane by lane. -/
+theorem chHalf_iterate_getElem? (fs : ℕ → ℝ → ℝ) (sq : ℝ → ℝ) (epsM epsA : ℝ) (j : ℕ)
+    (s : List (ChPre ℝ)) (i : ℕ) :
+    (chHalf (evalLanes fs) epsM epsA ((chStep (evalLanes fs) sq epsM epsA)^[j] s))[i]?
+      = (s[i]?).map fun l => chLaneHalf (fs i) epsM epsA ((chLaneStep (fs i) sq epsM epsA)^[j] l) := by
+  rw [chHalf_evalLanes, chStep_iterate]
+  simp [List.getElem?_mapIdx, Function.comp_def]
+
+/-- The loop: it stops after `j+1 ≤ fuel` bodies, returning the `xm` of the last one; it stops
+    early only when every lane is flagged, and it did not stop at any earlier body. -/
+theorem chLoop_spec (f : List ℝ → List ℝ) (sq : ℝ → ℝ) (epsM epsA : ℝ) :
+    ∀ (fuel k : ℕ) (s : List (ChPre ℝ)) (xm0 : List ℝ), 0 < fuel →
+      ∃ j, j < fuel ∧
+        chLoop f sq epsM epsA fuel k s xm0
+          = (k + j + 1, (chHalf f epsM epsA ((chStep f sq epsM epsA)^[j] s)).map (·.xm)) ∧
+        (j + 1 = fuel ∨
+          (chHalf f epsM epsA ((chStep f sq epsM epsA)^[j] s)).all (·.term) = true) ∧
+        ∀ j' < j, (chHalf f epsM epsA ((chStep f sq epsM epsA)^[j'] s)).all (·.term) = false := by
+  intro fuel
+  induction fuel with
+  | zero => intro k s xm0 h; omega
+  | succ n ih =>
+    intro k s xm0 _
+    unfold chLoop
+    simp only
+    split
+    · rename_i hall
+      exact ⟨0, by omega, by simp, Or.inr (by simpa using hall), by intro j' hj'; omega⟩
+    · rename_i hnall
+      rcases Nat.eq_zero_or_pos n with hn | hn
+      · subst hn
+        exact ⟨0, by omega, by simp [chLoop], Or.inl rfl, by intro j' hj'; omega⟩
+      · obtain ⟨j, hj, heq, hex, hprev⟩ := ih (k + 1) ((chHalf f epsM epsA s).map (chNext sq))
+          ((chHalf f epsM epsA s).map (·.xm)) hn
+        refine ⟨j + 1, by omega, ?_, ?_, ?_⟩
+        · rw [heq, Function.iterate_succ_apply]
+          simp only [chStep]; congr 1; omega
+        · rw [Function.iterate_succ_apply]
+          rcases hex with hex | hex
+          · exact Or.inl (by omega)
+          · exact Or.inr hex
+        · intro j' hj'
+          rcases Nat.eq_zero_or_pos j' with h0 | h0
+          · subst h0
+            simpa using hnall
+          · obtain ⟨j'', rfl⟩ : ∃ j'', j' = j'' + 1 := ⟨j' - 1, by omega⟩
+            rw [Function.iterate_succ_apply]
+            exact hprev j'' (by omega)
+
+/-! ## chandrupatla: the per-lane invariant -/
+
+/-- invariant of one lane at the top of the loop body. -/
+structure ChInv (f : ℝ → ℝ) (l : ChPre ℝ) : Prop where
+  lohi : l.lo ≤ l.hi
+  hfa : l.fa = f l.a
+  hfb : l.fb = f l.b
+  hfc : l.fc = f l.c
+  sign : signNP l.fa * signNP l.fb ≤ 0
+  a_mem : l.lo ≤ l.a ∧ l.a ≤ l.hi
+  b_mem : l.lo ≤ l.b ∧ l.b ≤ l.hi
+  c_mem : l.lo ≤ l.c ∧ l.c ≤ l.hi
+  /-- a lane that has not been flagged interpolates inside its current bracket -/
+  t_mem : l.term = false → 0 ≤ l.t ∧ l.t ≤ 1
+
+/-- invariant of one lane at the `break` test. -/
+structure ChMidInv (f : ℝ → ℝ) (epsM epsA : ℝ) (m : ChMid ℝ) : Prop where
+  lohi : m.lo ≤ m.hi
+  hfa : m.fa = f m.a
+  hfb : m.fb = f m.b
+  hfc : m.fc = f m.c
+  sign : signNP m.fa * signNP m.fb ≤ 0
+  a_mem : m.lo ≤ m.a ∧ m.a ≤ m.hi
+  b_mem : m.lo ≤ m.b ∧ m.b ≤ m.hi
+  c_mem : m.lo ≤ m.c ∧ m.c ≤ m.hi
+  xm_end : (m.xm = m.a ∧ m.fm = m.fa) ∨ (m.xm = m.b ∧ m.fm = m.fb)
+  fm_min : |m.fm| ≤ |m.fa| ∧ |m.fm| ≤ |m.fb|
+  tlim_eq : m.tlim = (2 * epsM * |m.xm| + epsA) / |m.b - m.c|
+  /-- an unflagged lane has `tlim ≤ 1/2` and `fm ≠ 0` -/
+  unflagged : m.term = false → m.tlim ≤ 1 / 2 ∧ m.fm ≠ 0
+
+theorem ChMidInv.hfm {f : ℝ → ℝ} {epsM epsA : ℝ} {m : ChMid ℝ} (h : ChMidInv f epsM epsA m) : m.fm = f m.xm := by
+  rcases h.xm_end with ⟨h1, h2⟩ | ⟨h1, h2⟩
+  · rw [h1, h2, h.hfa]
+  · rw [h1, h2, h.hfb]
+
+theorem ChMidInv.xm_mem {f : ℝ → ℝ} {epsM epsA : ℝ} {m : ChMid ℝ} (h : ChMidInv f epsM epsA m) : m.lo ≤ m.xm ∧ m.xm ≤ m.hi := by
+  rcases h.xm_end with ⟨h1, _⟩ | ⟨h1, _⟩
+  · rw [h1]; exact h.a_mem
+  · rw [h1]; exact h.b_mem
+
+theorem ChInv.init {f : ℝ → ℝ} {lo hi : ℝ} (hle : lo ≤ hi)
+    (hs : signNP (f hi) * signNP (f lo) ≤ 0) : ChInv f (chInit lo hi (f hi) (f lo)) := by
+  refine ⟨hle, rfl, rfl, rfl, hs, ⟨hle, le_refl _⟩, ⟨le_refl _, hle⟩, ⟨hle, le_refl _⟩, ?_⟩
+  intro _; simp [chInit]; norm_num
+
+theorem chXt_mem {l : ChPre ℝ} (h : l.lo ≤ l.hi) : l.lo ≤ chXt l ∧ chXt l ≤ l.hi := clipNP_mem h
+
+/-- the first half of the body preserves the invariant (for ANY value `ft = f xt`). -/
+theorem ChInv.half {f : ℝ → ℝ} {l : ChPre ℝ} (h : ChInv f l) (epsM epsA : ℝ) :
+    ChMidInv f epsM epsA (chLaneHalf f epsM epsA l) := by
+  obtain ⟨h0, h1, h2, h3, h4, h5, h6, h7, _⟩ := h
+  have hx := chXt_mem h0
+  have hterm : ∀ (t : Bool) (fm tlim : ℝ),
+      (t || (NumFns.beq fm (NumFns.ofNat 0) || decide (NumFns.ofSci 5 1 < tlim))) = false →
+      tlim ≤ 1 / 2 ∧ fm ≠ 0 := by
+    intro t fm tlim ht
+    simp only [Bool.or_eq_false_iff, decide_eq_false_iff_not, not_lt, beq_real_false, ofNat_real,
+      Nat.cast_zero, ofSci_real] at ht
+    exact ⟨by have := ht.2.2; norm_num at this; linarith, ht.2.1⟩
+  unfold chLaneHalf chUpd
+  by_cases hs : signNP (f (chXt l)) = signNP l.fa
+  · have hb : NumFns.beq (signNP (f (chXt l))) (signNP l.fa) = true := by simpa using hs
+    simp only [hb, if_true]
+    refine ⟨h0, rfl, h2, h1, by rw [hs]; exact h4, hx, h6, h5, ?_, ?_, ?_, hterm _ _ _⟩
+    · by_cases hsm : |f (chXt l)| < |l.fb|
+      · left; simp [hsm]
+      · right; simp [hsm]
+    · by_cases hsm : |f (chXt l)| < |l.fb|
+      · simp [hsm, hsm.le]
+      · simp [hsm, not_lt.mp hsm]
+    · simp
+  · have hb : NumFns.beq (signNP (f (chXt l))) (signNP l.fa) = false := by simpa using hs
+    simp only [hb, Bool.false_eq_true, if_false]
+    refine ⟨h0, rfl, h1, h2, signNP_mul_nonpos_of_ne hs, hx, h5, h6, ?_, ?_, ?_, hterm _ _ _⟩
+    · by_cases hsm : |f (chXt l)| < |l.fa|
+      · left; simp [hsm]
+      · right; simp [hsm]
+    · by_cases hsm : |f (chXt l)| < |l.fa|
+      · simp [hsm, hsm.le]
+      · simp [hsm, not_lt.mp hsm]
+    · simp
+
+/-- the new `{b, c}` is the old `{a, b}`; the new `a` is the evaluation point. -/
+theorem chLaneHalf_prev (f : ℝ → ℝ) (epsM epsA : ℝ) (l : ChPre ℝ) :
+    (chLaneHalf f epsM epsA l).a = chXt l ∧
+    (((chLaneHalf f epsM epsA l).b = l.b ∧ (chLaneHalf f epsM epsA l).c = l.a) ∨
+     ((chLaneHalf f epsM epsA l).b = l.a ∧ (chLaneHalf f epsM epsA l).c = l.b)) := by
+  unfold chLaneHalf chUpd
+  by_cases hb : NumFns.beq (signNP (f (chXt l))) (signNP l.fa) = true
+  · simp [hb]
+  · simp [hb]
+
+theorem chLaneHalf_term (f : ℝ → ℝ) (epsM epsA : ℝ) (l : ChPre ℝ) :
+    (chLaneHalf f epsM epsA l).term
+      = (l.term || (decide ((chLaneHalf f epsM epsA l).fm = 0)
+          || decide (1 / 2 < (chLaneHalf f epsM epsA l).tlim))) := by
+  unfold chLaneHalf chUpd
+  simp only [NumFns.beq, ofNat_real, Nat.cast_zero, ofSci_real]
+  norm_num
+
+/-- the second half only chooses the next `t`; an unflagged lane gets `t ∈ [0,1]`. -/
+theorem ChMidInv.next {f : ℝ → ℝ} {epsM epsA : ℝ} {m : ChMid ℝ} (h : ChMidInv f epsM epsA m)
+    (hM : 0 ≤ epsM) (hA : 0 ≤ epsA) (sq : ℝ → ℝ) : ChInv f (chNext sq m) := by
+  refine ⟨h.lohi, h.hfa, h.hfb, h.hfc, h.sign, h.a_mem, h.b_mem, h.c_mem, ?_⟩
+  intro ht
+  have ht' : m.term = false := ht
+  obtain ⟨h1, _⟩ := h.unflagged ht'
+  have h0 : 0 ≤ m.tlim := by
+    rw [h.tlim_eq]; apply div_nonneg _ (abs_nonneg _)
+    have := abs_nonneg m.xm; nlinarith
+  simp only [chNext, minNP_real, maxNP_real, ofNat_real, Nat.cast_one]
+  constructor
+  · apply le_min
+    · linarith
+    · exact le_trans h0 (le_max_left _ _)
+  · exact le_trans (min_le_left _ _) (by linarith)
+
+theorem ChInv.step {f : ℝ → ℝ} {l : ChPre ℝ} (h : ChInv f l) {epsM epsA : ℝ} (hM : 0 ≤ epsM)
+    (hA : 0 ≤ epsA) (sq : ℝ → ℝ) : ChInv f (chLaneStep f sq epsM epsA l) :=
+  (h.half epsM epsA).next hM hA sq
+
+theorem ChInv.iterate {f : ℝ → ℝ} {l : ChPre ℝ} (h : ChInv f l) {epsM epsA : ℝ} (hM : 0 ≤ epsM)
+    (hA : 0 ≤ epsA) (sq : ℝ → ℝ) (k : ℕ) : ChInv f ((chLaneStep f sq epsM epsA)^[k] l) := by
+  induction k with
+  | zero => exact h
+  | succ k ih => rw [Function.iterate_succ_apply']; exact ih.step hM hA sq
+
+/-! ## chandrupatla: the whole function -/
+
+/-- the initial per-lane states built by `chandrupatla`. -/
+noncomputable def chInitBatch (fs : ℕ → ℝ → ℝ) (xmin xmax : List ℝ) : List (ChPre ℝ) :=
+  List.zipWith (fun (x : ℝ × ℝ) (y : ℝ × ℝ) => chInit x.1 x.2 y.1 y.2)
+    (List.zip xmin xmax) (List.zip (evalLanes fs xmax) (evalLanes fs xmin))
+
+theorem chInitBatch_getElem? (fs : ℕ → ℝ → ℝ) {xmin xmax : List ℝ} {i : ℕ} {lo hi : ℝ}
+    (hlo : xmin[i]? = some lo) (hhi : xmax[i]? = some hi) :
+    (chInitBatch fs xmin xmax)[i]? = some (chInit lo hi (fs i hi) (fs i lo)) := by
+  simp [chInitBatch, List.getElem?_zipWith, List.zip, evalLanes, List.getElem?_mapIdx, hlo, hhi]
+
+theorem chInitBatch_getElem?_inv (fs : ℕ → ℝ → ℝ) {xmin xmax : List ℝ} {i : ℕ} {l : ChPre ℝ}
+    (h : (chInitBatch fs xmin xmax)[i]? = some l) :
+    ∃ lo hi, xmin[i]? = some lo ∧ xmax[i]? = some hi ∧ l = chInit lo hi (fs i hi) (fs i lo) := by
+  cases hlo : xmin[i]? with
+  | none => simp [chInitBatch, List.getElem?_zipWith, List.zip, hlo] at h
+  | some lo =>
+    cases hhi : xmax[i]? with
+    | none => simp [chInitBatch, List.getElem?_zipWith, List.zip, hlo, hhi] at h
+    | some hi =>
+      rw [chInitBatch_getElem? fs hlo hhi] at h
+      exact ⟨lo, hi, rfl, rfl, (Option.some.inj h).symm⟩
+
+theorem sign_of_valid {x y : ℝ} (hx : x ≤ 0) (hy : 0 ≤ y) : signNP y * signNP x ≤ 0 := by
+  rcases signNP_cases x with ⟨h, hsx⟩ | ⟨h, hsx⟩ | ⟨h, hsx⟩ <;>
+  rcases signNP_cases y with ⟨h', hsy⟩ | ⟨h', hsy⟩ | ⟨h', hsy⟩ <;>
+  first | (exfalso; linarith) | (rw [hsx, hsy]; norm_num)
+
+/-- the two assertions of `chandrupatla` pass on valid element-wise brackets. -/
+theorem chandrupatla_checks_pass {fs : ℕ → ℝ → ℝ} {xmin xmax : List ℝ}
+    (hv : ValidBrackets fs xmin xmax) :
+    (evalLanes fs xmax).length = (evalLanes fs xmin).length ∧
+    ((List.zip (evalLanes fs xmax) (evalLanes fs xmin)).all
+      fun p => decide (signNP p.1 * signNP p.2 ≤ NumFns.ofNat 0)) = true := by
+  constructor
+  · simp [evalLanes, hv.len]
+  · rw [List.all_eq_true]
+    intro p hp
+    obtain ⟨i, hi⟩ := List.mem_iff_getElem?.mp hp
+    rw [List.getElem?_zip_eq_some] at hi
+    simp only [evalLanes, List.getElem?_mapIdx, Option.map_eq_some_iff] at hi
+    obtain ⟨⟨hi', hhi, h1⟩, ⟨lo', hlo, h2⟩⟩ := hi
+    obtain ⟨_, hflo, hfhi⟩ := hv.lane i lo' hi' hlo hhi
+    rw [← h1, ← h2]
+    simpa using sign_of_valid hflo hfhi
+
+/-- What `chandrupatla` returns on valid element-wise brackets. -/
+theorem chandrupatla_eq {fs : ℕ → ℝ → ℝ} {xmin xmax : List ℝ} (hv : ValidBrackets fs xmin xmax)
+    (epsM epsA : ℝ) {maxiter : ℕ} (hmax : 0 < maxiter) :
+    ∃ j, j < maxiter ∧
+      chandrupatla (evalLanes fs) xmin xmax epsM epsA maxiter
+        = .ok (j + 1, (chHalf (evalLanes fs) epsM epsA
+            ((chStep (evalLanes fs) (fun x => x * x) epsM epsA)^[j] (chInitBatch fs xmin xmax))).map (·.xm)) ∧
+      (j + 1 = maxiter ∨ (chHalf (evalLanes fs) epsM epsA
+            ((chStep (evalLanes fs) (fun x => x * x) epsM epsA)^[j] (chInitBatch fs xmin xmax))).all (·.term) = true) ∧
+      ∀ j' < j, (chHalf (evalLanes fs) epsM epsA
+            ((chStep (evalLanes fs) (fun x => x * x) epsM epsA)^[j'] (chInitBatch fs xmin xmax))).all (·.term) = false := by
+  obtain ⟨h1, h2⟩ := chandrupatla_checks_pass hv
+  obtain ⟨j, hj, heq, hex, hprev⟩ := chLoop_spec (evalLanes fs) (fun x => x * x) epsM epsA maxiter 0
+    (chInitBatch fs xmin xmax) [] hmax
+  refine ⟨j, hj, ?_, hex, hprev⟩
+  unfold chandrupatla
+  simp only [h1, ne_eq, not_true_eq_false, ↓reduceIte, h2, Bool.not_true, Bool.false_eq_true,
+    Nat.ne_of_gt hmax]
+  rw [show (List.zipWith (fun (x : ℝ × ℝ) (y : ℝ × ℝ) => chInit x.1 x.2 y.1 y.2) (xmin.zip xmax)
+      ((evalLanes fs xmax).zip (evalLanes fs xmin))) = chInitBatch fs xmin xmax from rfl, heq]
+  simp
+
+/-- two points of `uIcc a b` are at most `|a - b|` apart. -/
+theorem abs_sub_le_of_mem_uIcc {a b x r : ℝ} (hx : x ∈ Set.uIcc a b) (hr : r ∈ Set.uIcc a b) :
+    |x - r| ≤ |a - b| := by
+  rw [Set.mem_uIcc] at hx hr
+  rcases le_total a b with hab | hab
+  · rw [abs_le, abs_of_nonpos (sub_nonpos.mpr hab)]
+    rcases hx with hx | hx <;> rcases hr with hr | hr <;> constructor <;> linarith [hx.1, hx.2, hr.1, hr.2]
+  · rw [abs_le, abs_of_nonneg (sub_nonneg.mpr hab)]
+    rcases hx with hx | hx <;> rcases hr with hr | hr <;> constructor <;> linarith [hx.1, hx.2, hr.1, hr.2]
+
+theorem uIcc_subset_Icc_of_mem {lo hi a b : ℝ} (ha : lo ≤ a ∧ a ≤ hi) (hb : lo ≤ b ∧ b ≤ hi) :
+    Set.uIcc a b ⊆ Set.Icc lo hi := by
+  intro x hx
+  rw [Set.mem_uIcc] at hx
+  rcases hx with hx | hx <;> constructor <;> linarith [hx.1, hx.2, ha.1, ha.2, hb.1, hb.2]
+
+/-- IVT on a sign bracket. -/
+theorem sign_bracket_root {f : ℝ → ℝ} {lo hi a b : ℝ} (hc : ContinuousOn f (Set.Icc lo hi))
+    (ha : lo ≤ a ∧ a ≤ hi) (hb : lo ≤ b ∧ b ≤ hi) (hs : signNP (f a) * signNP (f b) ≤ 0) :
+    ∃ r ∈ Set.uIcc a b, f r = 0 := by
+  have hc' : ContinuousOn f (Set.uIcc a b) := hc.mono (uIcc_subset_Icc_of_mem ha hb)
+  obtain ⟨r, hr, hfr⟩ := intermediate_value_uIcc hc' (zero_mem_uIcc_of_sign hs)
+  exact ⟨r, hr, hfr⟩
+
+/-- The returned point of a lane is an end of a sign bracket inside `[lo, hi]`; for a continuous
+    lane there is a root between the ends, no farther from `xm` than the bracket is wide. -/
+theorem ChMidInv.root {f : ℝ → ℝ} {epsM epsA : ℝ} {m : ChMid ℝ} (h : ChMidInv f epsM epsA m)
+    (hc : ContinuousOn f (Set.Icc m.lo m.hi)) :
+    ∃ r, m.lo ≤ r ∧ r ≤ m.hi ∧ f r = 0 ∧ |m.xm - r| ≤ |m.a - m.b| := by
+  have hs := h.sign; rw [h.hfa, h.hfb] at hs
+  obtain ⟨r, hr, hfr⟩ := sign_bracket_root hc h.a_mem h.b_mem hs
+  have hrm := uIcc_subset_Icc_of_mem h.a_mem h.b_mem hr
+  refine ⟨r, hrm.1, hrm.2, hfr, abs_sub_le_of_mem_uIcc ?_ hr⟩
+  rcases h.xm_end with ⟨h1, _⟩ | ⟨h1, _⟩
+  · rw [h1]; exact Set.left_mem_uIcc
+  · rw [h1]; exact Set.right_mem_uIcc
+
+/-- the interpolation point of an unflagged lane is inside its current bracket, so the clip is
+    the identity on it. -/
+theorem chXt_mem_uIcc {f : ℝ → ℝ} {l : ChPre ℝ} (h : ChInv f l) (ht : l.term = false) :
+    chXt l ∈ Set.uIcc l.a l.b := by
+  obtain ⟨t0, t1⟩ := h.t_mem ht
+  have hy : l.a + l.t * (l.b - l.a) ∈ Set.uIcc l.a l.b := by
+    rw [Set.mem_uIcc]
+    rcases le_total l.a l.b with hab | hab
+    · left; constructor <;> nlinarith
+    · right; constructor <;> nlinarith
+  have hyI := uIcc_subset_Icc_of_mem h.a_mem h.b_mem hy
+  have : chXt l = l.a + l.t * (l.b - l.a) := by
+    unfold chXt; rw [clipNP_real, max_eq_left hyI.1, min_eq_left hyI.2]
+  rw [this]; exact hy
+
+/-- A lane that is flagged by `tlim > 0.5` at the iteration under consideration (and was not
+    flagged before) has a root within `2·tol` of its `xm`, `tol = 2·eps_m·|xm| + eps_a`. -/
+theorem chLaneHalf_tlim_root {f : ℝ → ℝ} {l : ChPre ℝ} (h : ChInv f l) (ht : l.term = false)
+    (hc : ContinuousOn f (Set.Icc l.lo l.hi)) (epsM epsA : ℝ)
+    (hflag : 1 / 2 < (chLaneHalf f epsM epsA l).tlim) :
+    ∃ r, l.lo ≤ r ∧ r ≤ l.hi ∧ f r = 0 ∧
+      |(chLaneHalf f epsM epsA l).xm - r| < 2 * (2 * epsM * |(chLaneHalf f epsM epsA l).xm| + epsA) := by
+  have hm := h.half epsM epsA
+  set m := chLaneHalf f epsM epsA l with hmdef
+  have hs := h.sign; rw [h.hfa, h.hfb] at hs
+  obtain ⟨r, hr, hfr⟩ := sign_bracket_root hc h.a_mem h.b_mem hs
+  have hrm := uIcc_subset_Icc_of_mem h.a_mem h.b_mem hr
+  obtain ⟨ha, hbc⟩ := chLaneHalf_prev f epsM epsA l
+  rw [← hmdef] at ha hbc
+  have hxt := chXt_mem_uIcc h ht
+  -- xm is in the previous bracket
+  have hxm : m.xm ∈ Set.uIcc l.a l.b := by
+    rcases hm.xm_end with ⟨h1, _⟩ | ⟨h1, _⟩
+    · rw [h1, ha]; exact hxt
+    · rw [h1]; rcases hbc with ⟨hb, _⟩ | ⟨hb, _⟩
+      · rw [hb]; exact Set.right_mem_uIcc
+      · rw [hb]; exact Set.left_mem_uIcc
+  have hd : |m.b - m.c| = |l.a - l.b| := by
+    rcases hbc with ⟨hb, hc'⟩ | ⟨hb, hc'⟩
+    · rw [hb, hc', abs_sub_comm]
+    · rw [hb, hc']
+  have hle := abs_sub_le_of_mem_uIcc hxm hr
+  rw [hm.tlim_eq, hd] at hflag
+  have hpos : 0 < |l.a - l.b| := by
+    rcases (abs_nonneg (l.a - l.b)).lt_or_eq with h0 | h0
+    · exact h0
+    · rw [← h0, div_zero] at hflag; norm_num at hflag
+  rw [lt_div_iff₀ hpos] at hflag
+  exact ⟨r, hrm.1, hrm.2, hfr, by linarith⟩
+
+theorem chLaneStep_term (f : ℝ → ℝ) (sq : ℝ → ℝ) (epsM epsA : ℝ) (l : ChPre ℝ) :
+    (chLaneStep f sq epsM epsA l).term = (chLaneHalf f epsM epsA l).term := rfl
+
+theorem chLaneStep_lo_hi (f : ℝ → ℝ) (sq : ℝ → ℝ) (epsM epsA : ℝ) (k : ℕ) (l : ChPre ℝ) :
+    ((chLaneStep f sq epsM epsA)^[k] l).lo = l.lo ∧ ((chLaneStep f sq epsM epsA)^[k] l).hi = l.hi := by
+  induction k with
+  | zero => exact ⟨rfl, rfl⟩
+  | succ k ih => rw [Function.iterate_succ_apply']; exact ih
+
+/-! ## chandrupatla: rejection, scalar branch -/
+
+theorem chandrupatla_rejects_lane {fs : ℕ → ℝ → ℝ} {xmin xmax : List ℝ} {i : ℕ} {lo hi : ℝ}
+    (hlo : xmin[i]? = some lo) (hhi : xmax[i]? = some hi)
+    (hbad : (0 < fs i hi ∧ 0 < fs i lo) ∨ (fs i hi < 0 ∧ fs i lo < 0))
+    (epsM epsA : ℝ) (maxiter : ℕ) :
+    chandrupatla (evalLanes fs) xmin xmax epsM epsA maxiter = .error .assertion := by
+  unfold chandrupatla
+  simp only
+  split
+  · rfl
+  · have h : ((List.zip (evalLanes fs xmax) (evalLanes fs xmin)).all
+        fun p => decide (signNP p.1 * signNP p.2 ≤ NumFns.ofNat 0)) = false := by
+      rw [Bool.eq_false_iff, Ne, List.all_eq_true]
+      intro h
+      have hmem : (fs i hi, fs i lo) ∈ List.zip (evalLanes fs xmax) (evalLanes fs xmin) := by
+        apply List.mem_iff_getElem?.mpr
+        refine ⟨i, ?_⟩
+        rw [List.getElem?_zip_eq_some]
+        simp [evalLanes, List.getElem?_mapIdx, hlo, hhi]
+      have := h _ hmem
+      simp only [ofNat_real, Nat.cast_zero, decide_eq_true_eq] at this
+      exact sign_mul_pos_of_same hbad this
+    simp only [h, Bool.not_false, ↓reduceIte]
+
+theorem chNext_pow_eq (m : ChMid ℝ) :
+    chNext (fun x => NumFns.pow x (NumFns.ofNat 2)) m = chNext (fun x => x * x) m := by
+  have : (fun x : ℝ => NumFns.pow x (NumFns.ofNat 2)) = fun x => x * x := by
+    funext x
+    simp only [pow_real, ofNat_real, Nat.cast_ofNat, Real.rpow_two, sq]
+  rw [this]
+
+theorem chHalf_singleton (f : ℝ → ℝ) (epsM epsA : ℝ) (l : ChPre ℝ) :
+    chHalf (evalLanes fun _ => f) epsM epsA [l] = [chUpd epsM epsA (chXt l) (f (chXt l)) l] := by
+  simp [chHalf, evalLanes]
+
+theorem chLoop_singleton (f : ℝ → ℝ) (epsM epsA : ℝ) :
+    ∀ (fuel k : ℕ) (l : ChPre ℝ) (xs : List ℝ) (x : ℝ), (fuel = 0 → xs = [x]) →
+      chLoop (evalLanes fun _ => f) (fun x => x * x) epsM epsA fuel k [l] xs
+        = ((chLoopScalar f epsM epsA fuel k l x).1, [(chLoopScalar f epsM epsA fuel k l x).2]) := by
+  intro fuel
+  induction fuel with
+  | zero => intro k l xs x h; simp [chLoop, chLoopScalar, h rfl]
+  | succ n ih =>
+    intro k l xs x _
+    unfold chLoop chLoopScalar
+    simp only [chHalf_singleton, List.all_cons, List.all_nil, Bool.and_true, List.map_cons, List.map_nil]
+    split
+    · rfl
+    · rw [chNext_pow_eq]
+      exact ih _ _ _ _ (fun _ => rfl)
+
+/-- scalar input ≡ one-element vector (over ℝ, where `x**2` by `pow` and by `x*x` coincide). -/
+theorem chandrupatla_scalar_eq (f : ℝ → ℝ) (lo hi epsM epsA : ℝ) (maxiter : ℕ) :
+    chandrupatla (evalLanes fun _ => f) [lo] [hi] epsM epsA maxiter
+      = (chandrupatlaScalar f lo hi epsM epsA maxiter).map (fun r => (r.1, [r.2])) := by
+  unfold chandrupatla chandrupatlaScalar
+  simp only [evalLanes, List.mapIdx_cons, List.mapIdx_nil, List.length_cons, List.length_nil,
+    ne_eq, not_true_eq_false, ↓reduceIte, List.zip_cons_cons, List.zip_nil_right, List.all_cons,
+    List.all_nil, Bool.and_true, List.zipWith_cons_cons, List.zipWith_nil_right]
+  split
+  · rfl
+  · split
+    · rfl
+    · rename_i hmax
+      have := chLoop_singleton f epsM epsA maxiter 0 (chInit lo hi (f hi) (f lo)) [] lo
+        (fun h => absurd h hmax)
+      rw [this]; rfl
+
+/-! ## chandrupatla accepts a reversed bracket: concrete witness -/
+
+/-- `f(x) = x - 3/10` on the reversed bracket `xmin = 1 > xmax = 0`: `f(xmin) > 0 > f(xmax)`. -/
+noncomputable def revF : ℝ → ℝ := fun x => x - 3 / 10
+
+noncomputable def revState : ChPre ℝ := chInit 1 0 (revF 0) (revF 1)
+
+theorem rev_half (epsM : ℝ) {epsA : ℝ} (hA : epsA ≤ 1 / 2) :
+    chLaneHalf revF epsM epsA revState =
+      { lo := 1, hi := 0, a := 0, b := 1, c := 0, fa := -3/10, fb := 7/10, fc := -3/10,
+        term := false, xm := 0, fm := -3/10, tlim := epsA } := by
+  have hxt : chXt revState = 0 := by
+    simp only [chXt, revState, chInit, clipNP_real, ofSci_real]; norm_num
+  have h1 : revF 0 = -3/10 := by simp only [revF]; norm_num
+  have h2 : revF 1 = 7/10 := by simp only [revF]; norm_num
+  have hs1 : signNP (-3/10 : ℝ) = -1 := by rw [signNP_real]; norm_num
+  unfold chLaneHalf
+  rw [hxt, h1]
+  simp only [chUpd, revState, chInit, h1, h2, hs1, NumFns.beq, decide_true, if_true,
+    abs_real, ofNat_real, ofSci_real]
+  have habs : |(-3/10 : ℝ)| < |(7/10 : ℝ)| := by
+    rw [abs_of_neg (by norm_num), abs_of_pos (by norm_num)]; norm_num
+  simp only [habs, decide_true, if_true]
+  have hlt : ¬ ((5:ℕ) : ℝ) / 10 ^ 1 < epsA := by norm_num; linarith
+  norm_num
+  exact hA
+
+
+theorem rev_next (epsM : ℝ) {epsA : ℝ} (hA : epsA ≤ 1 / 2) :
+    chLaneStep revF (fun x => x * x) epsM epsA revState = revState := by
+  unfold chLaneStep
+  rw [rev_half epsM hA]
+  simp only [chNext, revState, chInit, minNP_real, maxNP_real, ofNat_real, ofSci_real, revF]
+  have h5 : ((5:ℕ):ℝ) / 10 ^ 1 = 1 / 2 := by norm_num
+  norm_num
+  rw [max_eq_right hA, min_eq_right (by linarith)]
+
+
+theorem rev_loop (epsM : ℝ) {epsA : ℝ} (hA : epsA ≤ 1 / 2) :
+    ∀ (fuel k : ℕ) (xs : List ℝ), 0 < fuel →
+      chLoop (evalLanes fun _ => revF) (fun x => x * x) epsM epsA fuel k [revState] xs
+        = (k + fuel, [0]) := by
+  intro fuel
+  induction fuel with
+  | zero => intro k xs h; omega
+  | succ n ih =>
+    intro k xs _
+    have hh : chHalf (evalLanes fun _ => revF) epsM epsA [revState]
+        = [chLaneHalf revF epsM epsA revState] := by
+      rw [chHalf_evalLanes]; rfl
+    have hn : chNext (fun x => x * x) (chLaneHalf revF epsM epsA revState) = revState :=
+      rev_next epsM hA
+    unfold chLoop
+    simp only [hh, List.all_cons, List.all_nil, Bool.and_true, List.map_cons, List.map_nil, hn]
+    rw [rev_half epsM hA]
+    simp only [Bool.false_eq_true, ↓reduceIte]
+    rcases Nat.eq_zero_or_pos n with h0 | h0
+    · subst h0; simp [chLoop]
+    · rw [ih _ _ h0]; congr 1; omega
+
+/-- `chandrupatla` accepts the reversed bracket `[1, 0]` for `f(x) = x - 3/10` and returns `0`
+    whatever the iteration cap. -/
+theorem rev_chandrupatla (epsM : ℝ) {epsA : ℝ} (hA : epsA ≤ 1 / 2) {maxiter : ℕ} (hmax : 0 < maxiter) :
+    chandrupatla (evalLanes fun _ => revF) [1] [0] epsM epsA maxiter = .ok (maxiter, [0]) := by
+  have hs1 : signNP (-3/10 : ℝ) = -1 := by rw [signNP_real]; norm_num
+  have hs2 : signNP (7/10 : ℝ) = 1 := by rw [signNP_real]; norm_num
+  have h1 : revF 0 = -3/10 := by simp only [revF]; norm_num
+  have h2 : revF 1 = 7/10 := by simp only [revF]; norm_num
+  unfold chandrupatla
+  simp only [evalLanes, List.mapIdx_cons, List.mapIdx_nil, List.length_cons, List.length_nil,
+    ne_eq, not_true_eq_false, ↓reduceIte, List.zip_cons_cons, List.zip_nil_right, List.all_cons,
+    List.all_nil, Bool.and_true, List.zipWith_cons_cons, List.zipWith_nil_right, h1, h2, hs1, hs2,
+    Nat.ne_of_gt hmax]
+  have := rev_loop epsM hA maxiter 0 [] hmax
+  simp only [revState, h1, h2] at this
+  norm_num at this ⊢
+  exact this
+
+/-! ## chandrupatla: what every lane of the result satisfies -/
+
+/-- what is proved about lane `i` of a successful `chandrupatla` call that ran `K` bodies. -/
+structure ChLaneOK (f : ℝ → ℝ) (lo hi epsM epsA : ℝ) (K : ℕ) (x : ℝ) : Prop where
+  /-- the returned point is `xm` of the lane iterated alone `K-1` full bodies and one half body -/
+  alone : ∃ m, m = chLaneHalf f epsM epsA
+      ((chLaneStep f (fun x => x * x) epsM epsA)^[K - 1] (chInit lo hi (f hi) (f lo))) ∧
+      x = m.xm ∧ ChMidInv f epsM epsA m ∧ m.lo = lo ∧ m.hi = hi
+  inside : lo ≤ x ∧ x ≤ hi
+
+theorem chandrupatla_lanes_ok {fs : ℕ → ℝ → ℝ} {xmin xmax : List ℝ} (hv : ValidBrackets fs xmin xmax)
+    {epsM epsA : ℝ} (hM : 0 ≤ epsM) (hA : 0 ≤ epsA) {maxiter : ℕ} (hmax : 0 < maxiter) :
+    ∃ K xm, chandrupatla (evalLanes fs) xmin xmax epsM epsA maxiter = .ok (K, xm) ∧
+      1 ≤ K ∧ K ≤ maxiter ∧
+      ∀ i lo hi, xmin[i]? = some lo → xmax[i]? = some hi →
+        ∃ x, xm[i]? = some x ∧ ChLaneOK (fs i) lo hi epsM epsA K x := by
+  obtain ⟨j, hj, heq, _, _⟩ := chandrupatla_eq hv epsM epsA hmax
+  refine ⟨j + 1, _, heq, by omega, by omega, ?_⟩
+  intro i lo hi hlo hhi
+  obtain ⟨hle, hflo, hfhi⟩ := hv.lane i lo hi hlo hhi
+  have hinit := ChInv.init (f := fs i) hle (sign_of_valid hflo hfhi)
+  have hinv := hinit.iterate hM hA (fun x => x * x) j
+  have hmid := hinv.half epsM epsA
+  obtain ⟨hl, hh⟩ := chLaneStep_lo_hi (fs i) (fun x => x * x) epsM epsA j (chInit lo hi (fs i hi) (fs i lo))
+  refine ⟨_, ?_, ⟨⟨_, rfl, rfl, hmid, hl, hh⟩, ?_⟩⟩
+  · rw [List.getElem?_map, chHalf_iterate_getElem?, chInitBatch_getElem? fs hlo hhi]; rfl
+  · have := hmid.xm_mem
+    rw [show (chLaneHalf (fs i) epsM epsA ((chLaneStep (fs i) (fun x => x * x) epsM epsA)^[j]
+      (chInit lo hi (fs i hi) (fs i lo)))).lo = lo from hl,
+      show (chLaneHalf (fs i) epsM epsA ((chLaneStep (fs i) (fun x => x * x) epsM epsA)^[j]
+      (chInit lo hi (fs i hi) (fs i lo)))).hi = hi from hh] at this
+    exact this
+
+theorem chInitBatch_singleton (f : ℝ → ℝ) (lo hi : ℝ) :
+    chInitBatch (fun _ => f) [lo] [hi] = [chInit lo hi (f hi) (f lo)] := by
+  simp [chInitBatch, evalLanes]
+
+theorem chHalf_iterate_singleton (f : ℝ → ℝ) (sq : ℝ → ℝ) (epsM epsA : ℝ) (j : ℕ) (l : ChPre ℝ) :
+    chHalf (evalLanes fun _ => f) epsM epsA ((chStep (evalLanes fun _ => f) sq epsM epsA)^[j] [l])
+      = [chLaneHalf f epsM epsA ((chLaneStep f sq epsM epsA)^[j] l)] := by
+  rw [chHalf_evalLanes, chStep_iterate]; rfl
+
+/-- A lane solved ALONE (one-element vector; by `chandrupatla_scalar_eq` also scalar input):
+    the loop stops at the first flag, so the flag is explained: the cap was reached, or `f(x) = 0`
+    exactly, or a root lies within `2·tol` of `x`. -/
+theorem chandrupatla_single {f : ℝ → ℝ} {lo hi : ℝ} (hle : lo ≤ hi) (hflo : f lo ≤ 0) (hfhi : 0 ≤ f hi)
+    (hc : ContinuousOn f (Set.Icc lo hi)) {epsM epsA : ℝ} (hM : 0 ≤ epsM) (hA : 0 ≤ epsA)
+    {maxiter : ℕ} (hmax : 0 < maxiter) :
+    ∃ K x, chandrupatla (evalLanes fun _ => f) [lo] [hi] epsM epsA maxiter = .ok (K, [x]) ∧
+      1 ≤ K ∧ K ≤ maxiter ∧ lo ≤ x ∧ x ≤ hi ∧
+      (K = maxiter ∨ f x = 0 ∨
+        ∃ r, lo ≤ r ∧ r ≤ hi ∧ f r = 0 ∧ |x - r| < 2 * (2 * epsM * |x| + epsA)) := by
+  have hv : ValidBrackets (fun _ => f) [lo] [hi] := by
+    refine ⟨rfl, ?_⟩
+    intro i lo' hi' h1 h2
+    cases i with
+    | zero => simp at h1 h2; subst h1; subst h2; exact ⟨hle, hflo, hfhi⟩
+    | succ i => simp at h1
+  obtain ⟨j, hj, heq, hex, hprev⟩ := chandrupatla_eq hv epsM epsA hmax
+  rw [chInitBatch_singleton] at heq hex hprev
+  set l₀ := chInit lo hi (f hi) (f lo) with hl₀
+  set sq : ℝ → ℝ := fun x => x * x with hsq
+  have hinit : ChInv f l₀ := ChInv.init hle (sign_of_valid hflo hfhi)
+  -- the lane is unflagged at the top of body j
+  have hterm : ∀ j' ≤ j, ((chLaneStep f sq epsM epsA)^[j'] l₀).term = false := by
+    intro j' hj'
+    cases j' with
+    | zero => rfl
+    | succ j'' =>
+      have := hprev j'' (by omega)
+      rw [chHalf_iterate_singleton] at this
+      rw [Function.iterate_succ_apply', chLaneStep_term]
+      simpa using this
+  have hinv := hinit.iterate hM hA sq j
+  have hmid := hinv.half epsM epsA
+  obtain ⟨hl, hh⟩ := chLaneStep_lo_hi f sq epsM epsA j l₀
+  have hlo' : ((chLaneStep f sq epsM epsA)^[j] l₀).lo = lo := hl
+  have hhi' : ((chLaneStep f sq epsM epsA)^[j] l₀).hi = hi := hh
+  rw [chHalf_iterate_singleton] at heq hex
+  set l := (chLaneStep f sq epsM epsA)^[j] l₀ with hl
+  have hxm := hmid.xm_mem
+  have hmlo : (chLaneHalf f epsM epsA l).lo = lo := hlo'
+  have hmhi : (chLaneHalf f epsM epsA l).hi = hi := hhi'
+  rw [hmlo, hmhi] at hxm
+  refine ⟨j + 1, (chLaneHalf f epsM epsA l).xm, by simpa using heq, by omega, by omega, hxm.1, hxm.2, ?_⟩
+  rcases hex with hex | hex
+  · exact Or.inl hex
+  · right
+    simp only [List.all_cons, List.all_nil, Bool.and_true] at hex
+    rw [chLaneHalf_term, hterm j (le_refl _)] at hex
+    simp only [Bool.false_or, Bool.or_eq_true, decide_eq_true_eq] at hex
+    rcases hex with hex | hex
+    · left; rw [← hmid.hfm]; exact hex
+    · right
+      have hc' : ContinuousOn f (Set.Icc l.lo l.hi) := by rw [hlo', hhi']; exact hc
+      obtain ⟨r, hr1, hr2, hfr, hd⟩ := chLaneHalf_tlim_root hinv (hterm j (le_refl _)) hc' epsM epsA hex
+      rw [hlo'] at hr1; rw [hhi'] at hr2
+      exact ⟨r, hr1, hr2, hfr, hd⟩
 
 end CopVerif.RootFind
